@@ -1,2 +1,89 @@
-(* C14 — ill-formed directives are rejected at generation time; well-formed ones accepted. *)
+(* C14 — ill-formed directives are rejected at generation time; well-formed ones accepted.
+
+   Full statement (the target):   forall f, accepts f = true <-> WellFormed f.
+   Proved here: the equivalence check by check for duplicate Params, output-less tasks and
+   Invoke, duplicate providers, unused outputs, and dependency cycles (through tasks and
+   predicates, at any distance); hence C14_sound_partial. The two checks made by the provider
+   walk of validateFuncs ("no provider found", "unused input") are modelled and run against
+   the real tool and against the independent boolean rules wf_b on every generated flow, but
+   their equivalence with the declarative rules is not proved yet: partial. *)
 From CffVerif Require Import ValidateModel ValidateProofs.
+
+Theorem C14_dup_params : forall f, chk_dup_param f = false <-> NoDup (map TUser (fparams f)).
+Proof. exact chk_dup_param_spec. Qed.
+Print Assumptions C14_dup_params.
+
+Theorem C14_invoke :
+  forall f, chk_no_output f = false /\ chk_invoke_outputs f = false <->
+            forall t, In t (ftasks f) -> (touts t = [] <-> tinvoke t = true).
+Proof. exact chk_invoke_spec. Qed.
+Print Assumptions C14_invoke.
+
+Theorem C14_dup_provider : forall f, chk_dup_provider f = false <-> NoDup (flat_map fouts (funcs f)).
+Proof. exact chk_dup_provider_spec. Qed.
+Print Assumptions C14_dup_provider.
+
+Theorem C14_unused_output :
+  forall f, chk_unused_output f = false <-> forall o, In o (flat_map fouts (funcs f)) -> In o (consumed f).
+Proof. exact chk_unused_output_spec. Qed.
+Print Assumptions C14_unused_output.
+
+(* the cycle search finds a cycle exactly when one exists - whatever its length, and
+   whether it runs through task parameters or through predicate parameters *)
+Theorem C14_cycle : forall f, chk_cycle f = false <-> forall t, ~ needs_plus f t t.
+Proof. exact chk_cycle_spec. Qed.
+Print Assumptions C14_cycle.
+
+(* every accepted flow satisfies the rules that do not involve the provider walk *)
+Theorem C14_sound_partial :
+  forall f, accepts f = true ->
+    NoDup (map TUser (fparams f)) /\ NoDup (flat_map fouts (funcs f)) /\
+    (forall t, ~ needs_plus f t t) /\
+    (forall o, In o (flat_map fouts (funcs f)) -> In o (consumed f)) /\
+    (forall t, In t (ftasks f) -> (touts t = [] <-> tinvoke t = true)).
+Proof.
+  intros f H. unfold accepts, validate in H.
+  destruct (chk_dup_param f) eqn:E1; [discriminate|].
+  destruct (chk_no_output f) eqn:E2; [discriminate|].
+  destruct (chk_invoke_outputs f) eqn:E3; [discriminate|].
+  destruct (chk_dup_provider f) eqn:E4; [discriminate|].
+  destruct (chk_unused_output f) eqn:E5; [discriminate|].
+  destruct (chk_no_provider f) eqn:E6; [discriminate|].
+  destruct (chk_unused_input f) eqn:E7; [discriminate|].
+  destruct (chk_cycle f) eqn:E8; [discriminate|].
+  repeat split.
+  - now apply chk_dup_param_spec.
+  - now apply chk_dup_provider_spec.
+  - now apply chk_cycle_spec.
+  - now apply chk_unused_output_spec.
+  - apply (proj1 (chk_invoke_spec f) (conj E2 E3)); assumption.
+  - apply (proj1 (chk_invoke_spec f) (conj E2 E3)); assumption.
+Qed.
+Print Assumptions C14_sound_partial.
+
+(* Parallel: a Slice/Map is accepted exactly when the element (key, value) types are
+   assignable to the function's parameters - by definition of the fixed check; the check
+   as it was before fix 6eedc36 is refuted on any asymmetric pair *)
+Theorem C14_parallel :
+  forall assignable e p, accept_slice assignable e p = assignable e p.
+Proof. reflexivity. Qed.
+Theorem C14_assign_refuted :
+  exists assignable e p, accept_slice_reversed assignable e p <> assignable e p.
+Proof. exists (fun v t => Nat.leb v t), 0, 1. discriminate. Qed.
+Print Assumptions C14_assign_refuted.
+
+(* non-vacuity: a cycle through a predicate at distance 2, found; an acyclic flow, accepted *)
+Example C14_example_cycle :
+  let f := {| fparams := [0]; fresults := [2];
+              ftasks := [ {| tins := [0]; touts := [1]; tpred := Some [3]; tinvoke := false |};
+                          {| tins := [1]; touts := [2]; tpred := None; tinvoke := false |};
+                          {| tins := [2]; touts := [3]; tpred := None; tinvoke := false |} ] |} in
+  chk_cycle f = true /\ wf_b f = false.
+Proof. split; reflexivity. Qed.
+Example C14_example_ok :
+  let f := {| fparams := [0]; fresults := [2];
+              ftasks := [ {| tins := [1]; touts := [2]; tpred := Some [0]; tinvoke := false |};
+                          {| tins := [0]; touts := [1]; tpred := None; tinvoke := false |};
+                          {| tins := [2]; touts := []; tpred := None; tinvoke := true |} ] |} in
+  accepts f = true /\ wf_b f = true.
+Proof. split; reflexivity. Qed.
